@@ -180,6 +180,7 @@ theorem C11_closed_frozen (p : Port) (h : p.closed = true) (op : LOp) :
   | iterPending => simp only [lstep]; exact iterPending_closed _ p [] h
   | close => simp [lstep, Port.close, h]
   | withExit => simp [lstep, Port.close, h]
+  | reset => simp [lstep, Port.userReset, h]
 
 theorem C11_closed_history (ops : List LOp) (p : Port) (h : p.closed = true) :
     (lrun p ops).log = p.log ∧ (lrun p ops).closed = true := by
